@@ -68,7 +68,22 @@ def structure_case(task):
     # member in between) the tables must be bit-identical to the first construction
     for rep in range(2, 6):
         if rep == 4:
-            gkls.make(n, k % 100 + 1)
+            other = gkls.make(n, k % 100 + 1)
+            # the generator object of ANOTHER member re-targeted to this one must become exactly this function
+            gen = getattr(other, "function", None)
+            if gen is not None and hasattr(gen, "SetFunctionNumber"):
+                try:
+                    gen.SetFunctionNumber(k)
+                    mm = gen.GKLS_minima
+                    same = (np.array_equal(np.array(mm.local_min, dtype=float), S.M)
+                            and np.array_equal(np.array(mm.rho, dtype=float), S.rho)
+                            and np.array_equal(np.array(mm.f, dtype=float), S.f))
+                    if not same:
+                        msgs.append(f"{tag}: the generator of GKLS({n},{k % 100 + 1}) re-targeted with SetFunctionNumber({k}) does "
+                                    f"not reproduce the tables of a freshly built GKLS({n},{k})")
+                except Exception as e:
+                    msgs.append(f"{tag}: SetFunctionNumber({k}) on the generator of GKLS({n},{k % 100 + 1}) raised "
+                                f"{type(e).__name__}: {e}")
         S2 = gkls.Structure(n, k)
         if not (np.array_equal(S2.M, S.M) and np.array_equal(S2.rho, S.rho) and np.array_equal(S2.f, S.f)):
             msgs.append(f"{tag}: construction number {rep} in this process gives different minimisers / radii / values than "
